@@ -698,10 +698,14 @@ func (s *scope) binopFacts(pr *proof, a Lin, x *ssa.BinOp) {
 		}
 		if okLin && bits <= 62 {
 			max := (int64(1) << uint(bits)) - 1
+			M := max + 1
+			// exact, wrapped once below (a = e + 2^bits), wrapped once above (a = e - 2^bits), further out
 			pr.addSplit("uwrap:"+fmt.Sprintf("%s%p", s.prefix, x), [][]Cons{
 				append(eq(a, e), geC(e, 0), leC(e, max)),
-				{leC(e, -1)},
-				{geC(e, max+1)},
+				append(eq(a, e.Add(linConst(M))), leC(e, -1), geC(e, -M)),
+				append(eq(a, e.Sub(linConst(M))), geC(e, M), leC(e, 2*M-1)),
+				{leC(e, -M-1)},
+				{geC(e, 2*M)},
 			})
 		}
 		return
